@@ -68,8 +68,21 @@ class FakeSock:
         self.chunks.pop(0)
         return c
 
+    PIECE = 700        # send() accepts at most this many bytes per call (a nearly full socket buffer)
+    on_write = None    # hook: another thread of the node wants to send on this connection right now
+
     def sendall(self, b):
         self.out.append(bytes(b))
+        if self.on_write:
+            self.on_write()
+
+    def send(self, b):
+        """like socket.send: may take only a part of the data and says how much"""
+        n = min(len(b), self.PIECE)
+        self.out.append(bytes(b[:n]))
+        if self.on_write:
+            self.on_write()
+        return n
 
     def shutdown(self, how):
         pass
@@ -144,6 +157,78 @@ class World:
         self.r.count('runs')
         errs = [x for x in self.server.log.records if x[0] in ('error', 'exception', 'critical')]
         return b''.join(fs.out), errs, fs.chunks
+
+    # ---------------------------------------------------------------- concurrent senders on one connection
+    def run_concurrent_send(self, rng):
+        """asynchronous messages never split another line: while the handler writes replies (among them the long
+        'describing' line), another thread of the node - a poller announcing an update, a logger - calls send_reply of the
+        same connection after every write on the socket (it may have to wait for the send lock: then it is let go on and
+        joined at the end)"""
+        import threading
+        r = self.r
+        self.restore()
+        del self.server.log.records[:]
+        lines = [b'activate', b'describe'] + [rng.choice(self.VALID) for _ in range(rng.randint(1, 4))] + [b'describe', b'ping last']
+        stream = b'\n'.join(lines) + b'\n'
+        fs = FakeSock([stream])
+        disp = self.server.dispatcher
+        pending = []
+        state = {'busy': False, 'n': 0}
+
+        def other_sender():
+            for conn in list(getattr(disp, '_connections', [])):
+                if getattr(conn, 'request', None) is fs:
+                    state['n'] += 1
+                    conn.send_reply(('update', 'd:value', [float(state['n']), {'t': 1.0}]))
+
+        def on_write():
+            if state['busy'] or state['n'] >= 40:
+                return
+            state['busy'] = True
+            try:
+                t = threading.Thread(target=other_sender)
+                t.start()
+                t.join(0.02)
+                if t.is_alive():
+                    pending.append(t)
+            finally:
+                state['busy'] = False
+        fs.on_write = on_write
+        buf = io.StringIO()
+        with contextlib.redirect_stdout(buf):
+            self.Handler(fs, ('127.0.0.1', 6), self.server)
+        for t in pending:
+            t.join(5)
+        out = b''.join(fs.out)
+        r.count('concurrent_send_runs')
+        r.count('concurrent_messages_injected', state['n'])
+        case = {'sub': 'concurrent-send', 'stream': stream.decode('latin1'), 'output_head': out[:300].decode('latin1')}
+        r.case(('concurrent-send', len(lines)), True)
+        errs = [x for x in self.server.log.records if x[0] in ('error', 'exception', 'critical')]
+        if errs:
+            r.violation('C07/handler-terminated-by-exception', f'(concurrent senders) {errs[0]}'[:300], case)
+            return
+        nrep = 0
+        for ln in out.split(b'\n')[:-1]:
+            try:
+                text = ln.decode('utf-8')
+                toks = text.split(' ', 2)
+                if len(toks) > 2 and toks[2]:
+                    strict_json(toks[2])
+                if toks[0] == '_':
+                    continue          # lines of the help text
+                if toks[0] not in ASYNC:
+                    nrep += 1
+                elif toks[0] == 'update' and not (len(toks) == 3 and isinstance(json.loads(toks[2]), list)):
+                    raise ValueError('malformed update')
+            except Exception as e:
+                r.violation('C07/line-split-by-another-message', f'with a second sender on the connection the output contains the malformed line {ln[:120]!r} ({type(e).__name__})', case)
+                return
+        if not out.endswith(b'\n') and out:
+            r.violation('C07/line-split-by-another-message', 'the output does not end with a complete line', case)
+            return
+        if nrep != len(lines):
+            r.violation('C07/reply-count', f'(concurrent senders) {nrep} replies for {len(lines)} request lines', case)
 
     # ---------------------------------------------------------------- grammar
     VALID = [b'*IDN?', b'describe', b'describe .', b'ping', b'ping tok1', b'read d', b'read d:value', b'read d:_x', b'read d:status',
@@ -426,6 +511,8 @@ def run_shard(shard):
         r.count('exhaustive_short_streams')
     else:
         r.count('exhaustive_short_streams', 0)
+    for _ in range(12 if shard.get('tier') == 'quick' else 400):
+        w.run_concurrent_send(rng)
     w.run_codec(rng, 2000)
     return r.result()
 
